@@ -10,10 +10,10 @@ VERIF_BUILD_ROOT="$B" "$HERE/build.sh" cov >/dev/null || exit 2
 X="$B/cov/cimsim"
 N="${1:-3000}"
 run() { "$X" run "$@" >/dev/null 2>&1 || true; }
-for e in events hheap coro mempool util; do run $e 11 0 $N; done
-run rng 11 0 $((N/10)); run experiment 11 0 $((N/10))
+for e in events hheap coro mempool util teardown; do run $e 11 0 $N; done
+run rng 11 0 $((N/10)); run experiment 11 0 $((N/10)); run experiment 11 0 $((N/100)) --cfg many=1
 for cfg in mix=all,faults=2 mix=wait,faults=2 mix=res,faults=2 mix=pool,faults=2 mix=buf,faults=2 mix=oq,faults=2 mix=pq,faults=2 \
-           mix=cond,faults=2 mix=all,faults=1,crowd=1 churn=1 mix=all,faults=2,rec=1 mix=all,faults=0; do
+           mix=cond,faults=2 mix=all,faults=1,crowd=1 churn=1 mix=all,faults=2,rec=1 mix=all,faults=0 mix=wait,faults=2,storm=1 mix=buf,faults=1,huge=1; do
   run procs 11 0 $N --cfg $cfg
 done
 run procs 11 0 20 --cfg mix=all,faults=1,big=1,rec=1
